@@ -337,6 +337,8 @@ def run(ctx):
                 ctx.check(raw == want_raw, "K5.literal-elements-evaluated", "%s: elements of %s reach the predicate %s (%s)" % (name, label, "as they are" if want_raw else "only after being evaluated against the outer data", cfg),
                           ("%s: an element of the literal array can reach the predicate without having been parsed and evaluated" % name) if not want_raw else ("%s: an element of a computed collection cannot reach the predicate as it is" % name),
                           where=b.where(), fn=b.key, nontrivial=True)
+            ctx.check(roles.conv_faithful, "K2.conversion-faithful", "%s: the conversion of an evaluated value hands on the value itself (%s)" % (name, cfg),
+                      "the crate's Evaluated → Value conversion does not return the payload unchanged for every variant: what the collection evaluated to is not what is normalised", where=roles.conv.where(), fn=roles.conv.key, nontrivial=True)
             ctx.check(not lossy, "K2.collection-unchanged", "%s: the evaluated collection reaches the kind test through the faithful conversion only (%s)" % (name, cfg),
                       "%s passes the evaluated collection through %s before looking at its kind: what it evaluated to is no longer what is normalised" % (name, sorted(lossy)), where=b.where(), fn=b.key, nontrivial=True)
             for (o, v), (got, evaluated) in sorted(m.items(), key=lambda kv: (kv[0][0], kv[0][1] or "")):
